@@ -1,4 +1,41 @@
-(* PropC12.v -- property C12 (statements are filled in when ShuffleProofs.v lands). *)
-From DX Require Import Base Shuffle.
-Example task_layer_runs : length (sh_stages (task_layer 5 5 3 2 [0;2;3;4] true)) = 2.
-Proof. reflexivity. Qed.
+(* PropC12.v -- property C12: a shuffle is a permutation that co-locates equal keys.
+   Statements only (closed by [exact]); proofs live in ShuffleProofs.v. *)
+From Coq Require Import Permutation.
+From DX Require Import Base Shuffle ShuffleProofs.
+
+(* single-stage shuffle: exact lists (rows ordered by input partition), any output subset *)
+Theorem C12_simple_route : forall (payload : Type) (n_in n_out : nat) (sel : list nat) (filtered : bool) (Ps : list (list (row payload))),
+  length Ps = n_in ->
+  (forall p, In p sel -> p < n_out) ->
+  (forall P r, In P Ps -> In r P -> target r < n_out) ->
+  exec_shuffle (simple_layer n_in n_out sel filtered) Ps = Some (map (routed Ps) sel).
+Proof. exact simple_route. Qed.
+Print Assumptions C12_simple_route.
+
+(* staged shuffle: EVERY n_in <= n_out, branch factor k >= 2, stage count with k^stages >= n_in,
+   every requested output subset (duplicates, any order), with or without the regroup step *)
+Theorem C12_staged_route : forall (payload : Type) (n_in n_out k stages : nat) (sel : list nat) (filtered : bool) (Ps : list (list (row payload))),
+  length Ps = n_in -> 1 <= n_in -> n_in <= n_out -> 2 <= k -> n_in <= k ^ stages -> 1 <= stages ->
+  (forall p, In p sel -> p < n_out) ->
+  (forall P r, In P Ps -> In r P -> target r < n_out) ->
+  exists outs, exec_shuffle (task_layer n_in n_out k stages sel filtered) Ps = Some outs /\
+               length outs = length sel /\
+               forall i, i < length sel -> Permutation (nth i outs []) (routed Ps (nth i sel 0)).
+Proof. exact staged_route. Qed.
+Print Assumptions C12_staged_route.
+
+(* disk shuffle: whatever order the partition tasks ran in *)
+Theorem C12_disk_route : forall (payload : Type) (sigma : list nat) (sel : list nat) (Ps : list (list (row payload))),
+  Permutation sigma (seq 0 (length Ps)) ->
+  forall i, i < length sel -> Permutation (nth i (exec_disk sigma Ps sel) []) (routed Ps (nth i sel 0)).
+Proof. exact disk_route. Qed.
+Print Assumptions C12_disk_route.
+
+(* the whole shuffle is a permutation of its input, and partition i holds only rows routed to i *)
+Theorem C12_shuffle_permutation : forall (payload : Type) (n_in n_out k stages : nat) (Ps : list (list (row payload))) outs,
+  length Ps = n_in -> 1 <= n_in -> n_in <= n_out -> 2 <= k -> n_in <= k ^ stages -> 1 <= stages ->
+  (forall P r, In P Ps -> In r P -> target r < n_out) ->
+  exec_shuffle (task_layer n_in n_out k stages (seq 0 n_out) false) Ps = Some outs ->
+  Permutation (concat outs) (concat Ps) /\ (forall i r, i < n_out -> In r (nth i outs []) -> target r = i).
+Proof. exact shuffle_permutation. Qed.
+Print Assumptions C12_shuffle_permutation.
